@@ -195,6 +195,8 @@ impl<NumericTypes: EvalexprNumericTypes> Operator<NumericTypes> {
         context: &C,
     ) -> EvalexprResultValue<NumericTypes> {
         use crate::operator::Operator::*;
+        #[cfg(evalexpr_verif)]
+        crate::verif::operands(self, arguments);
         match self {
             RootNode => {
                 if let Some(first) = arguments.first() {
